@@ -32,7 +32,16 @@ type c08Scenario struct {
 	Hosts      [][]int   `json:"hosts"` // value sequence per host (levels via thresholds 20/50/80)
 	CrashAt    []int     `json:"crash_boundaries"`
 	Boundaries int       `json:"boundaries_in_base_run"`
+	IDByTag    bool      `json:"id_uses_a_tag_outside_the_group_by,omitempty"`
 	Config     string    `json:"config"`
+}
+
+// id of the alert for host h: the host tag alone, or prefixed with a tag that is not a group-by dimension
+func (sc *c08Scenario) id(h int) string {
+	if sc.IDByTag {
+		return fmt.Sprintf("east/h%d", h)
+	}
+	return fmt.Sprintf("h%d", h)
 }
 
 func c08Level(v int) alert.Level {
@@ -49,7 +58,7 @@ func c08Level(v int) alert.Level {
 
 func c08Gen(c *Ctx) *c08Scenario {
 	g := c.G
-	sc := &c08Scenario{}
+	sc := &c08Scenario{IDByTag: g.Chance(1, 3)}
 	nt := g.Range(1, 2)
 	for i := 0; i < nt; i++ {
 		t := c08Task{ID: fmt.Sprintf("A%d", i)}
@@ -62,10 +71,15 @@ func c08Gen(c *Ctx) *c08Scenario {
 		default:
 			t.Named = fmt.Sprintf("named%d", i)
 			t.Anon = true
+			t.Bare = g.Bool()
 		}
 		t.SCO = g.Bool()
 		var sb strings.Builder
-		sb.WriteString("stream\n    |from().measurement('m').groupBy('host')\n    |alert()\n        .id('{{ index .Tags \"host\" }}')\n        .message('{{ .ID }}/{{ index .Fields \"s\" }}')\n        .info(lambda: \"v\" > 20)\n        .warn(lambda: \"v\" > 50)\n        .crit(lambda: \"v\" > 80)")
+		idT := "{{ index .Tags \"host\" }}"
+		if sc.IDByTag {
+			idT = "{{ index .Tags \"dc\" }}/{{ index .Tags \"host\" }}"
+		}
+		sb.WriteString("stream\n    |from().measurement('m').groupBy('host')\n    |alert()\n        .id('" + idT + "')\n        .message('{{ .ID }}/{{ index .Fields \"s\" }}')\n        .info(lambda: \"v\" > 20)\n        .warn(lambda: \"v\" > 50)\n        .crit(lambda: \"v\" > 80)")
 		if t.SCO {
 			sb.WriteString("\n        .stateChangesOnly()")
 		}
@@ -173,6 +187,7 @@ type c08Life struct {
 	told     map[string]map[string][]alert.Level // topic -> id -> levels handed to the recording handler, in order
 	copyPath string
 	bounds   int
+	openB    int                               // storage boundaries passed while the daemon opened (migrations, versions)
 	restored map[string]map[string]alert.Level // as reported by the alert service right after open
 	final    map[string]map[string]alert.Level
 	verdict  Verdict
@@ -201,13 +216,14 @@ func c08Run(c *Ctx, sc *c08Scenario, cfg simrt.Config, path string, resume []int
 			life.verdict = Fail("restart/open", "the daemon cannot open on the storage as it stood at the crash: %v", err)
 			return
 		}
+		life.openB = st.Boundaries
 		// what the alert service restored, before any task runs
 		life.restored = map[string]map[string]alert.Level{}
 		for _, tp := range topics {
 			m := map[string]alert.Level{}
 			life.restored[tp] = m
 			for h := range sc.Hosts {
-				id := fmt.Sprintf("h%d", h)
+				id := sc.id(h)
 				if es, ok, _ := d.Alert.EventState(tp, id); ok {
 					m[id] = es.Level
 				}
@@ -244,7 +260,7 @@ func c08Run(c *Ctx, sc *c08Scenario, cfg simrt.Config, path string, resume []int
 			go func(h int, vs []int) {
 				defer wg.Done()
 				for i := resume[h]; i < len(vs); i++ {
-					line := fmt.Sprintf("m,host=h%d v=%di,s=%di %d\n", h, vs[i], i, int64(time.Second)*int64(i+1))
+					line := fmt.Sprintf("m,host=h%d,dc=east v=%di,s=%di %d\n", h, vs[i], i, int64(time.Second)*int64(i+1))
 					if code := d.WriteLine("db", "rp", line); code != 204 {
 						return
 					}
@@ -252,6 +268,24 @@ func c08Run(c *Ctx, sc *c08Scenario, cfg simrt.Config, path string, resume []int
 					// one point at a time: the next point is written once this one has been fully processed,
 					// so that "the remaining data" after a crash is well defined
 					simrt.WaitIdle()
+					// the two topics of one node agree on an id as soon as the node has processed a point of it
+					// (levels are a function of the point, so both must show this point's level)
+					if life.verdict.Class == "" {
+						for _, t := range sc.Tasks {
+							if !t.Anon || t.Named == "" {
+								continue
+							}
+							var lv [2]alert.Level
+							for k, tp := range t.topics() {
+								if es, ok, _ := d.Alert.EventState(tp, sc.id(h)); ok {
+									lv[k] = es.Level
+								}
+							}
+							if lv[0] != lv[1] {
+								life.verdict = Fail("anon-named-disagree", "after the node of task %s had processed point #%d of id %s (value %d) its anonymous topic holds %v and its named topic %s holds %v", t.ID, i, sc.id(h), vs[i], lv[0], t.Named, lv[1])
+							}
+						}
+					}
 				}
 			}(h, vs)
 		}
@@ -265,7 +299,7 @@ func c08Run(c *Ctx, sc *c08Scenario, cfg simrt.Config, path string, resume []int
 			m := map[string]alert.Level{}
 			life.final[tp] = m
 			for h := range sc.Hosts {
-				id := fmt.Sprintf("h%d", h)
+				id := sc.id(h)
 				if es, ok, _ := d.Alert.EventState(tp, id); ok {
 					m[id] = es.Level
 				}
@@ -311,7 +345,7 @@ func runC08(c *Ctx) Verdict {
 	for _, t := range sc.Tasks {
 		for _, tp := range t.topics() {
 			for h, vs := range sc.Hosts {
-				id := fmt.Sprintf("h%d", h)
+				id := sc.id(h)
 				want := c08Level(vs[len(vs)-1])
 				got, ok := base.final[tp][id]
 				sawNonOK := false
@@ -341,14 +375,19 @@ func runC08(c *Ctx) Verdict {
 		}
 	} else {
 		seen := map[int]bool{}
-		for tries := 0; len(positions) < 10 && tries < 40; tries++ { // bounded: a replayed tape may be exhausted
+		// the first commits after the daemon has opened (the first event a topic ever stores) always, the rest sampled
+		for b := base.openB + 1; b <= base.openB+6 && b <= base.bounds; b++ {
+			seen[b] = true
+			positions = append(positions, b)
+		}
+		for tries := 0; len(positions) < 12 && tries < 40; tries++ { // bounded: a replayed tape may be exhausted
 			b := 1 + c.G.Intn(base.bounds)
 			if !seen[b] {
 				seen[b] = true
 				positions = append(positions, b)
 			}
 		}
-		for b := 1; len(positions) < 10 && b <= base.bounds; b++ {
+		for b := 1; len(positions) < 12 && b <= base.bounds; b++ {
 			if !seen[b] {
 				seen[b] = true
 				positions = append(positions, b)
@@ -388,7 +427,7 @@ func runC08(c *Ctx) Verdict {
 		for _, t := range sc.Tasks {
 			for _, tp := range t.topics() {
 				for h, vs := range sc.Hosts {
-					id := fmt.Sprintf("h%d", h)
+					id := sc.id(h)
 					// (0) the storage holds the level of the last point that was fully processed before the crash, give or
 					// take the point in flight: points are written one at a time, so of host h's points everything before
 					// #acked-1 has been processed completely, and at most #acked is under way
@@ -434,7 +473,7 @@ func runC08(c *Ctx) Verdict {
 					if len(told1) > 0 {
 						last = told1[len(told1)-1]
 					}
-					if got != last && !t.Bare {
+					if got != last && !(t.Bare && tp == t.Named) {
 						found := false
 						for _, l := range told2 {
 							if l == got {
@@ -475,7 +514,7 @@ func runC08(c *Ctx) Verdict {
 			if t.Anon && t.Named != "" {
 				tps := t.topics()
 				for h, vs := range sc.Hosts {
-					id := fmt.Sprintf("h%d", h)
+					id := sc.id(h)
 					if l1.acked[h] < len(vs) && l2.final[tps[0]][id] != l2.final[tps[1]][id] {
 						v := Fail("anon-named-disagree", "crash at boundary %d: after the restart the anonymous topic %s holds %v and the named topic %s holds %v for id %s", b, tps[0], l2.final[tps[0]][id], tps[1], l2.final[tps[1]][id], id)
 						v.Shape = shape
@@ -507,7 +546,7 @@ func init() {
 	Register(&Prop{
 		ID:  "C08",
 		Run: runC08,
-		Rule: "case = 1-2 alert tasks (named topic - with a recording handler or touched by nothing but the task -, anonymous topic via a handler, or both on one node; with/without stateChangesOnly) x 1-3 alert IDs with seeded level sequences (2-8/14 points) processed one point at a time; a base run counts the storage transaction boundaries B, then the same seed is re-executed once per crash position (every boundary before/after each commit in thorough and when B<=10, else a seeded sample of 10): crash there, restart on a byte copy of the Bolt file, restart the tasks, feed the remaining data; " +
+		Rule: "case = 1-2 alert tasks (named topic - with a recording handler or touched by nothing but the task -, anonymous topic via a handler, or both on one node; alert id from the group-by tag alone or together with a tag outside the group-by; with/without stateChangesOnly) x 1-3 alert IDs with seeded level sequences (2-8/14 points) processed one point at a time; a base run counts the storage transaction boundaries B, then the same seed is re-executed once per crash position (every boundary before/after each commit in thorough and when B<=10, else the first 6 after the daemon has opened and a seeded sample of 6 more): crash there, restart on a byte copy of the Bolt file, restart the tasks, feed the remaining data; " +
 			"non-trivial = the base run had at least one storage boundary; distinct = distinct (scenario, interleaving signatures) tuples",
 		Real:        []string{"services/alert Service (Open/loadSavedTopicStates, Collect, persistEventState/clearHistory, restoreTopic, EventState, UpdateEvent)", "alert.Topics", "AlertNode (restoreEventState/restoreEvent, determineLevel, alertState)", "services/storage Bolt adapter + real bbolt file", "TaskMaster, httpd write endpoint, edges"},
 		Stub:        []string{"harness StorageService wrapper: crash = abandon the world at a transaction boundary + byte copy of the Bolt file", "recording alert.Handler on every topic", "tasks are restarted by the harness (task_store restart is C14)", "durable levels are read back with bbolt directly, not through Kapacitor"},
